@@ -11,23 +11,34 @@ CLAIM = dict(
               "executable Rat/Gaussian-rational model of the k-point bookkeeping, Data_K.degen, Data_K._rotate and the "
               "random-gauge column mixing, tied to the real functions on exact inputs + property oracle on the real code "
               "(k vs k+G; random_gauge on/off through evaluate_k and run())",
-    text="PARTIAL. Proved: (k+G)%1 = k%1 and k_to_1BZ(k+G) = k_to_1BZ(k) for integer G, exp(2 pi i (k+G).R) = "
-         "exp(2 pi i k.R) (and the N-th-root-of-unity version for FFT grids), hence equal Fourier sums; tr(U^H X U) = tr X; "
-         "products A_nl B_ln and chains of ANY number of inner factors (FormulaProduct.nn/trace, also on the executable "
-         "model; closing the chain with a transposed last factor is shown NOT invariant), the nn and ln blocks of Matrix_GenDer_ln and the complete Omega.nn (internal and external "
-         "terms) are covariant under unitary rotations of the inner and of the outer states, so their traces are gauge "
-         "invariant; D_H is covariant under every unitary that mixes only states of exactly equal energy; Data_K.degen "
-         "groups have >= 2 bands with all internal gaps <= threshold and the random gauge touches no other column.  "
-         "Not expanded in Lean (oracle only): the remaining hand-written formulas (Der2Omega, Morb_H/DerMorb/Der2Morb, "
-         "Der3E, InvMass, Der2Spin, ...), eigh, near- (not exactly) degenerate groups.",
+    text="Proved: (k+G)%1 = k%1 and k_to_1BZ(k+G) = k_to_1BZ(k) for integer G, exp(2 pi i (k+G).R) = exp(2 pi i k.R) (and "
+         "the N-th-root-of-unity version for FFT grids), hence equal Fourier sums; tr(U^H X U) = tr X; chains of ANY number "
+         "of inner factors (FormulaProduct; a transposed last factor is shown NOT invariant); D_H is covariant under every "
+         "unitary that mixes only states of exactly equal energy; Data_K.degen groups have >= 2 bands with internal gaps <= "
+         "threshold and the random gauge touches no other column.  GENERAL THEOREM (formula_expr_covariant): every "
+         "expression built from blocks of Hamiltonian-gauge matrices by sums, products over the inner or outer set, "
+         "Hermitian conjugation, scalar factors, element-wise functions of the two band energies and generalised "
+         "derivatives is covariant under independent unitary rotations of the inner and of the outer states that mix only "
+         "states of exactly equal energy, so its trace (and Re/Im of it) is gauge invariant.  The formula classes are "
+         "structure terms of that syntax, each checked entry-by-entry against the real class on exact inputs: Omega, "
+         "DerOmega, Der2Omega, Morb_H, Morb_Hpm/morb, DerMorb_H, DerMorb/Dermorb, Der2Morb_H, Der2Morb/Der2morb, InvMass, "
+         "Der3E, Spin, DerSpin, Der2Spin (= Der2A/B/O/H), Velocity, DerDcov, Der2Dcov, DerWln, Matrix_GenDer_ln, "
+         "VelVelVel, VelMassVel, MassVel, VelOmega (internal and external terms).  PARTIAL only in: SpinVelocity/SpinOmega "
+         "(need SH/SA/SHA matrices; element-wise .imag), the *_test / FormulaSymmetric (tildeFab...) classes, the SDCT "
+         "formulas, eigh itself and near- (not exactly) degenerate groups - these stay oracle-only.",
     note="Trusted: Lean kernel + Mathlib; harness; numpy eigh/einsum/exp/FFT and scipy unitary_group.  Theorems over exact "
          "fields; oracle tolerance 1e-8 relative to the size of the quantity (observed differences 1e-14).",
 )
 TRUSTED = [
     "modelled: Data_K.kpoints_all (% 1), SystemKP.k_to_1BZ, expdK on the quarter grid, Data_K.degen, Data_K._rotate, "
     "the column mixing of Data_K.UU_K(random_gauge), FormulaProduct.nn/trace for Matrix_ln factors (1-4 factors)",
-    "proved at matrix level (Mathlib), not extracted from the code: Formula_ln.trace, Matrix_GenDer_ln.nn/ln, Omega.nn, D_H",
-    "not modelled (oracle only): eigh, R_to_k/FFT, the other covariant formulas, calculators' accumulation, run()",
+    "formula classes are modelled as structure terms (CExpr) whose evaluator is the object of the soundness theorem and is "
+    "run by the driver; the hypothesis of that theorem - every Xbar(name, der) block goes to U_r^H X U_c - is how "
+    "Data_K._rotate acts when the eigenvector matrix is multiplied by a block-diagonal unitary (rotate_eq, blocks_of_conj)",
+    "the real classes are evaluated on a Data_K_R object created without __init__, with exact Xbar matrices and energies "
+    "injected; dEig_inv, D_H, Dcov, covariant() are then the real code",
+    "not modelled (oracle only): eigh, R_to_k/FFT, SpinVelocity/SpinOmega, *_test and FormulaSymmetric classes, SDCT, "
+    "calculators' accumulation, run()",
     "numpy float arithmetic on dyadic inputs is exact (used for exact comparisons in the correspondence)",
 ]
 RULE = ("corr: dyadic k/grid points with integer shifts of both signs, quarter-grid phases, sorted dyadic spectra with "
@@ -77,6 +88,85 @@ def parse_gm(s, n, m):
         a, b = tok.split(",")
         vals.append(complex(float(Fr(a)), float(Fr(b))))
     return np.array(vals).reshape(n, m)
+
+
+# ---- formula classes: the structure terms of Model/C04.lean against the real classes on a stub Data_K ------------
+
+FX_NAMES = {"Ham": [1, 2, 3], "AA": [0, 1, 2], "rotAA": [0, 1, 2], "BB": [0, 1, 2], "CC": [0, 1, 2], "SS": [0, 1, 2]}
+FX_BASE = {"Ham": 0, "AA": 1, "rotAA": 1, "BB": 1, "CC": 1, "SS": 1}
+# class -> (number of Cartesian indices, size limit N, number of component tuples per line)
+FX_CLASSES = {"Omega": (1, 4, 2), "DerOmega": (2, 4, 2), "Der2Omega": (3, 3, 1), "Morb_H": (1, 4, 2), "Morb_Hpm": (1, 4, 2),
+              "DerMorb_H": (2, 3, 1), "DerMorb": (2, 3, 1), "Der2Morb_H": (3, 3, 1), "Der2Morb": (3, 2, 1),
+              "InvMass": (2, 4, 2), "Der3E": (3, 3, 1), "Spin": (1, 4, 2), "DerSpin": (2, 4, 2), "Der2Spin": (3, 3, 1),
+              "Velocity": (1, 4, 2), "VelVelVel": (3, 4, 2), "VelMassVel": (4, 3, 1), "MassVel": (3, 3, 1),
+              "VelOmega": (2, 3, 1)}
+
+
+def fx_stub(rng, N):
+    """a real Data_K_R object (no __init__) whose Hamiltonian-gauge matrices Xbar(name, der) and energies are exact
+    Gaussian-dyadic data; dEig_inv, D_H, Dcov, covariant(...) are then computed by the REAL code"""
+    from wannierberri.data_K.data_K_R import Data_K_R
+    E = [Fr(rng.randint(-8, 8), 4)]
+    for _ in range(N - 1):
+        E.append(E[-1] + rng.choice([Fr(0), Fr(1, 2 ** 40), Fr(1, 4), Fr(1, 2), Fr(1), Fr(3, 2)]))
+    st = object.__new__(Data_K_R)
+    st._bar_quantities = {}
+    st._covariant_quantities = {}
+    st.force_internal_terms_only = False
+    st.__dict__["E_K"] = np.array([[float(e) for e in E]])
+    atoms = {}
+    for name, ders in FX_NAMES.items():
+        for d in ders:
+            shape = (N, N) + (3,) * (FX_BASE[name] + d)
+            size = int(np.prod(shape))
+            X = (np.array([rng.randint(-4, 4) / 2 for _ in range(size)])
+                 + 1j * np.array([rng.randint(-4, 4) / 2 for _ in range(size)])).reshape(shape)
+            if name != "BB":
+                X = 0.5 * (X + X.swapaxes(0, 1).conj())
+            st._bar_quantities[(name, d)] = X[None]
+            atoms[(name, d)] = X
+    return st, E, atoms
+
+
+def fx_real(st, cls, int_, ext, sign):
+    from wannierberri.formula import covariant as frml
+    from wannierberri.formula import elementary as el
+    kw = dict(internal_terms=int_, external_terms=ext)
+    if cls in ("Omega", "DerOmega", "Der2Omega", "Morb_H", "DerMorb_H", "Der2Morb_H", "VelOmega"):
+        return getattr(frml, cls)(st, **kw)
+    if cls in ("Morb_Hpm", "DerMorb", "Der2Morb"):
+        return getattr(frml, cls)(st, sign=sign, **kw)
+    if cls == "InvMass":
+        return el.InvMass(st)
+    return getattr(frml, cls)(st)
+
+
+def fx_corr(ctx, add):
+    rng = ctx.rng
+    thr = F(1e-7)
+    reps = ctx.n(1, 6)
+    for cls, (ndim, nmax, ncomp) in FX_CLASSES.items():
+        for rep in range(reps):
+            N = rng.randint(2, nmax)
+            st, E, atoms = fx_stub(rng, N)
+            a = rng.randint(0, N - 2) if rng.random() < 0.8 else 0
+            b = rng.randint(a + 1, N - 1 if a == 0 else N)
+            inn = list(range(a, b))
+            out_ = [i for i in range(N) if i not in inn]
+            int_, ext = rng.choice([(True, True), (True, True), (True, False), (False, True)])
+            sign = rng.choice([1, -1])
+            css = [[rng.randrange(3) for _ in range(ndim)] for _ in range(ncomp)]
+            case = dict(cls=cls, N=N, inn=inn, internal=int_, external=ext, sign=sign, comps=css, E=[float(e) for e in E])
+            with ctx.attempt(f"formula class {cls} on exact inputs", case):
+                with quiet():
+                    nn = np.array(fx_real(st, cls, int_, ext, sign).nn(0, np.array(inn, dtype=int), np.array(out_, dtype=int)))
+                toks = []
+                for (name, d), X in atoms.items():
+                    flat = X.reshape(-1)
+                    toks += [f"{name}:{d}", rats([F(x) for x in flat.real]), rats([F(x) for x in flat.imag])]
+                add(f"fx {cls} {int(int_)} {int(ext)} {sign} {rat(thr)} {N} {ints(inn)} {ints(out_)} {rats(E)} "
+                    f"{intss(css)} " + " ".join(toks), "fx", (nn, css, len(inn)), case)
+            ctx.count(f"corr.formula_class.{cls}")
 
 
 def corr(ctx):
@@ -210,13 +300,23 @@ def corr(ctx):
             add("ptrace " + ints(inn) + " " + " ".join(ratss(m[0]) + " " + ratss(m[1]) for m in mats), "retrace",
                 float(val), case)
         ctx.count(f"corr.product_factors={nf}")
+    fx_corr(ctx, add)
     out = ctx.lean(lines)
     for line, o, (kind, code, case) in zip(lines, out, checks):
         ctx.case(signature=line, nontrivial=True)
-        if o == "bad-op":
+        if o == "bad-op" or "unknown-class" in o:
             ctx.mismatch("model rejected the line", dict(line=line[:300]))
             continue
-        if kind == "retrace":
+        if kind == "fx":
+            nn, css, n = code
+            ok = True
+            for blk, cs in zip(o.split("|"), css):
+                want = parse_gm(blk, n, n)
+                got = nn[(slice(None), slice(None)) + tuple(cs)]
+                if np.abs(want - got).max() > 1e-11 * (1 + np.abs(got).max()):
+                    ok = False
+            code = nn
+        elif kind == "retrace":
             ok = float(Fr(o.split(",")[0])) == code
         elif kind == "exactvec":
             ok = [Fr(x) for x in o.split(",")] == list(code)
